@@ -1303,7 +1303,8 @@ Section Facts.
   Qed.
 
   Lemma fill_entry n fill (M : matrix) i j : sq n M -> i < n -> j < n ->
-    mget (fill_matrix E zero is_zero fill M) i j = if is_zero (mget M i j) then fill else mget M i j.
+    mget (fill_matrix E zero is_zero fill M) i j =
+    if is_zero (mget M i j) && negb (Nat.eqb i j) then fill else mget M i j.
   Proof.
     intros Hsq Hi Hj. destruct (sq_dims n M Hsq ltac:(lia)) as [HR HC]. unfold fill_matrix. rewrite HR, HC.
     rewrite mget_mtab by assumption. reflexivity.
@@ -1359,18 +1360,15 @@ Section Facts.
   Qed.
 
   Lemma join_variance_lemma inds fill tmpl (r r' : coll) ps x : wf r = true -> join inds fill tmpl r = Ok (r', ps) ->
-    In x (names r) ->
-    (is_zero fill = true \/ ~ In x inds \/ forall e, cov r x x = Some e -> is_zero e = false) ->
-    cov r' x x = cov r x x.
+    In x (names r) -> cov r' x x = cov r x x.
   Proof.
-    intros Hwf HJ Hx G. destruct (in_dec Pos.eq_dec x inds) as [Hi|Hni].
+    intros Hwf HJ Hx. destruct (in_dec Pos.eq_dec x inds) as [Hi|Hni].
     - destruct (join_entry _ _ _ _ _ _ x x Hwf HJ Hi Hi) as [i [j [Hi1 [Hj1 [Hil [Hjl [C [C' [Hsq _]]]]]]]]].
       rewrite Hi1 in Hj1. inversion Hj1; subst j. rewrite C, C'. f_equal.
       unfold join_matrix. destruct (is_zero fill) eqn:Zf; cbn [negb].
       + destruct tmpl as [pn|]; [|reflexivity]. rewrite (tmpl_entry_eq _ pn _ i i Hsq Hil Hil).
         unfold tmpl_entry. rewrite Nat.min_id, Nat.max_id, Nat.ltb_irrefl. reflexivity.
-      + rewrite (fill_entry _ fill _ i i Hsq Hil Hil).
-        destruct G as [G|[G|G]]; [discriminate | contradiction|]. rewrite (G _ C). reflexivity.
+      + rewrite (fill_entry _ fill _ i i Hsq Hil Hil). rewrite Nat.eqb_refl, andb_false_r. reflexivity.
     - eapply join_outside_lemma; eauto.
   Qed.
 
@@ -1427,7 +1425,8 @@ Section Facts.
       apply Hyd. rewrite <- (H2 1%positive), (H1 1%positive). exact Hxd. }
     exists i, j. split; [exact Hi1|]. split; [exact Hj1|]. split; [exact Hne|]. rewrite C'. f_equal. unfold join_matrix.
     destruct (negb (is_zero fill)).
-    - rewrite (fill_entry _ fill _ i j Hsq Hil Hjl). rewrite Exy, is_zero_zero. reflexivity.
+    - rewrite (fill_entry _ fill _ i j Hsq Hil Hjl). rewrite Exy, is_zero_zero.
+      destruct (Nat.eqb_spec i j); [contradiction | reflexivity].
     - destruct tmpl as [pn|]; [|exact Exy].
       rewrite (tmpl_entry_eq _ pn _ i j Hsq Hil Hjl). unfold tmpl_entry.
       destruct (Nat.ltb_spec (Nat.min i j) (Nat.max i j)) as [Hlt|Hge]; [|lia]. cbn [andb].
@@ -1498,6 +1497,36 @@ Section Facts.
     - apply (cov_diff _ dy dx y x Hnd Iy Ix Hyd Hxd). intro H. eapply NoDup_app_disj; [exact Hnd' | exact Hx |].
       apply In_names. exists dy. split; assumption.
   Qed.
+
+  (* + goes through create: the result exists exactly when the names stay unique *)
+  Lemma create_Ok (ds ds' : coll) : create E ds = Ok ds' -> ds' = ds /\ NoDup (names ds).
+  Proof.
+    unfold create. destruct (nodupb (names ds)) eqn:N; [|discriminate]. intros H. inversion H; subst.
+    split; [reflexivity | apply nodupb_NoDup; exact N].
+  Qed.
+
+  Lemma add_coll_spec (r r2 r' : coll) : add_coll E r r2 = Ok r' -> r' = r ++ r2 /\ NoDup (names (r ++ r2)).
+  Proof. apply create_Ok. Qed.
+
+  Lemma add_coll_error (r r2 : coll) : add_coll E r r2 = Err ValueError <-> ~ NoDup (names (r ++ r2)).
+  Proof.
+    unfold add_coll, create. destruct (nodupb (names (r ++ r2))) eqn:N.
+    - split; [discriminate | intros H; exfalso; apply H, nodupb_NoDup, N].
+    - split; [intros _ H; apply nodupb_NoDup in H; congruence | reflexivity].
+  Qed.
+
+  Lemma add_coll_wf (r r2 r' : coll) : wf r = true -> wf r2 = true -> add_coll E r r2 = Ok r' -> wf r' = true.
+  Proof.
+    intros W1 W2 H. destruct (add_coll_spec _ _ _ H) as [-> Hnd]. unfold Model.wf in *.
+    apply andb_true_iff in W1. apply andb_true_iff in W2. destruct W1 as [W1 _]. destruct W2 as [W2 _].
+    apply andb_true_iff. split; [rewrite forallb_app, W1, W2; reflexivity | apply nodupb_NoDup; exact Hnd].
+  Qed.
+
+  Lemma add_dist_spec (r r' : coll) d : add_dist E r d = Ok r' -> r' = r ++ [d] /\ NoDup (names (r ++ [d])).
+  Proof. unfold add_dist. destruct (negb (level_known E d)); [discriminate | apply create_Ok]. Qed.
+
+  Lemma radd_dist_spec (r r' : coll) d : radd_dist E r d = Ok r' -> r' = d :: r /\ NoDup (names (d :: r)).
+  Proof. unfold radd_dist. destruct (negb (level_known E d)); [discriminate | apply create_Ok]. Qed.
 End Facts.
 
 (* ---------------------------------------------------------------------------------------------- *)
@@ -1822,10 +1851,20 @@ Proof. intros. rewrite !variance_cov. apply (unjoin_variance E zero); assumption
 Lemma join_variances_lemma (E : Type) (zero : E) (is_zero : E -> bool) (mk_cov : id -> id -> E)
   inds fill tmpl (r r' : coll E) ps (x : id) :
   wf E r = true -> join E zero is_zero mk_cov inds fill tmpl r = Ok (r', ps) -> In x (names r) ->
-  (is_zero fill = true \/ ~ In x inds \/ forall e, variance E zero r x = Some e -> is_zero e = false) ->
   variance E zero r' x = variance E zero r x.
 Proof.
-  intros Hwf HJ Hx G. rewrite !variance_cov.
-  eapply (join_variance_lemma E zero is_zero mk_cov); eauto.
-  destruct G as [G|[G|G]]; auto. right. right. intros e He. apply G. rewrite variance_cov. exact He.
+  intros Hwf HJ Hx. rewrite !variance_cov. eapply (join_variance_lemma E zero is_zero mk_cov); eauto.
 Qed.
+
+(* + : the (co)variance statements need no extra hypothesis any more: a result exists only when the names stay unique *)
+Lemma add_keeps_cov_lemma (E : Type) (zero : E) (r r2 r' : coll E) x y :
+  add_coll E r r2 = Ok r' -> In x (names r) -> In y (names r) -> cov E zero r' x y = cov E zero r x y.
+Proof. intros H Hx Hy. destruct (add_coll_spec E r r2 r' H) as [-> Hnd]. apply add_cov_left; assumption. Qed.
+
+Lemma add_cross_zero_lemma (E : Type) (zero : E) (r r2 r' : coll E) x y :
+  add_coll E r r2 = Ok r' -> In x (names r) -> In y (names r2) ->
+  cov E zero r' x y = Some zero /\ cov E zero r' y x = Some zero.
+Proof. intros H Hx Hy. destruct (add_coll_spec E r r2 r' H) as [-> Hnd]. apply add_cov_cross; assumption. Qed.
+
+Lemma add_names_lemma (E : Type) (r r2 r' : coll E) : add_coll E r r2 = Ok r' -> names r' = names r ++ names r2.
+Proof. intros H. destruct (add_coll_spec E r r2 r' H) as [-> _]. apply names_app. Qed.
